@@ -310,6 +310,21 @@ def unary(ctx, cname):
                     if oks:
                         compare(ctx, cid, cname + '.interp', P, res, singles, n)
     if cname == 'UnitQuaternion':
+        # vector of s with a destination on the other hemisphere, with and without the shorter-arc option
+        for n, sh in itertools.product(range(2, 6), (False, True)):
+            cid = 'C09/UnitQuaternion/interp/dest/svec=%d/shortest=%d' % (n, sh)
+            if ctx.want(cid):
+                ctx.case(cid, key=cid)
+                sv = svec_all[:n]
+                import spatialmath as sm
+                mkdest = lambda: sm.UnitQuaternion(-value(cname, 9), norm=False, check=False)
+                P = dict(cls=cname, acc='interp', n=n, mode='1xS', shortest=int(sh))
+                ok, res = call(lambda: build(cname, [3]).interp(list(sv), dest=mkdest(), shortest=sh))
+                if not ok:
+                    ctx.fail(cid, 'UnitQuaternion.interp', 'raises:' + type(res).__name__, P, 'interp over %d s values raised %r' % (n, res))
+                else:
+                    singles = [build(cname, [3]).interp(s, dest=mkdest(), shortest=sh) for s in sv]
+                    compare(ctx, cid, 'UnitQuaternion.interp', P, res, singles, n)
         for n in range(1, 6):
             cid = 'C09/UnitQuaternion/interp/svec=%d' % n
             if ctx.want(cid):
